@@ -106,6 +106,31 @@ fn build(c: &RanksCase) -> (Vec<bool>, BitVec<Vec<usize>>, u64) {
             pos += [1usize, 1, 2, 65535, 65536, 65536, 65536, 65537, 65537][(splitmix64(&mut x) % 9) as usize];
         }
         v
+    } else if c.shape == "gappow" || c.shape == "gappow0" {
+        // runs of ones (gappow) or zeros (gappow0) at a constant distance 2^j, j in 8..=15: the span of 2^L
+        // consecutive ones is exactly 2^(j+L), i.e. inventory spans sit exactly on the power-of-two thresholds
+        // between 2^16 and 2^21 that separate the subinventory encodings
+        let fill = c.shape == "gappow0";
+        let mut v = vec![fill; len];
+        let mut pos = (c.seed as usize >> 20) % 3;
+        let mut k = 0u64;
+        'outer: loop {
+            let mut x = c.seed ^ k.wrapping_mul(0x9E3779B97F4A7C15);
+            k += 1;
+            let r = splitmix64(&mut x);
+            let gap = 1usize << (8 + r % 8);
+            let run = 48 + (r >> 8) as usize % 210;
+            for _ in 0..run {
+                if pos >= len {
+                    break 'outer;
+                }
+                v[pos] = !fill;
+                pos += gap;
+            }
+            // now and then shift by one, so that both sides of every threshold occur
+            pos += [0usize, 0, 1, gap - 1][(r >> 20) as usize % 4];
+        }
+        v
     } else {
         (0..len).map(|i| bit_of(c, i, len)).collect()
     };
@@ -175,7 +200,8 @@ fn build_huge(c: &RanksCase) -> (Vec<usize>, BitVec<Vec<usize>>) {
     let mut words = vec![if complement { usize::MAX } else { 0usize }; len.div_ceil(64)];
     let mut ones = Vec::new();
     let mut rng = Rng::new(c.seed);
-    let avg = 1usize << (8 + c.dens as usize % 10);
+    // beyond 2^33 bits only a few thousand ones, so that most pages of the backing store stay untouched
+    let avg = if len > (1usize << 33) { 1usize << (20 + c.dens as usize % 4) } else { 1usize << (8 + c.dens as usize % 10) };
     let mut pos = rng.usize_below(avg);
     while pos < len {
         if complement {
@@ -655,6 +681,8 @@ impl World for RankselWorld {
         let adaptive = structure.starts_with("sa") || structure.starts_with("sz") || structure.contains("(sa") || structure.contains("(sz");
         let (len, shape) = if adaptive && rng.chance(1, 8) {
             (rng.urange(140_000, 900_000), if structure.starts_with("sz") && rng.chance(2, 3) { "gapmix0" } else { "gapmix" })
+        } else if adaptive && rng.chance(1, 10) {
+            (rng.urange(1_000_000, 6_000_000), if structure.starts_with("sz") && rng.chance(2, 3) { "gappow0" } else { "gappow" })
         } else {
             (len, shape)
         };
@@ -665,7 +693,12 @@ impl World for RankselWorld {
         );
         let zero_side = structure.starts_with("sz") || (structure.starts_with("ranksmall") && rng.chance(1, 3));
         let (len, shape) = if huge_ok && run % 3001 < list.len() as u64 * 2 && rng.chance(1, if tier == Tier::Thorough { 3 } else { 8 }) {
-            ((1usize << 32) + rng.urange(1, 200_000), if zero_side { "huge0" } else { "huge" })
+            // (a quarter of the mostly-zeros ones for the RankSmall family reach the third and fourth 2^32-bit upper block)
+            if !zero_side && (structure.starts_with("ranksmall") || structure.starts_with("ss")) && rng.chance(1, 4) {
+                ((1usize << 33) + (rng.urange(0, 1) << 32) + rng.urange(1, 200_000), "huge")
+            } else {
+                ((1usize << 32) + rng.urange(1, 200_000), if zero_side { "huge0" } else { "huge" })
+            }
         } else {
             (len, shape)
         };
@@ -676,7 +709,7 @@ impl World for RankselWorld {
         } else {
             (len, shape, None)
         };
-        let small_inv = shape.starts_with("gapmix");
+        let small_inv = shape.starts_with("gapmix") || shape.starts_with("gappow");
         RanksCase {
             len,
             shape: shape.into(),
